@@ -361,6 +361,19 @@ func (o *orch) determinismRecheck() (ok bool, n int) {
 
 // verifyReplay replays a file in a fresh process; it must reproduce class and digest.
 func (o *orch) verifyReplay(v VRec, variant string) bool {
+	if strings.Contains(v.Class.API, "runtime map order") {
+		// uncontrolled engine (real runtime map order): reproduction is
+		// near-certain, not exact; give it a few attempts before complaining
+		for i := 0; i < 4; i++ {
+			if o.verifyReplayOnce(v, variant, false) {
+				return true
+			}
+		}
+	}
+	return o.verifyReplayOnce(v, variant, true)
+}
+
+func (o *orch) verifyReplayOnce(v VRec, variant string, complain bool) bool {
 	cmd := exec.Command(o.bin(variant), "replay", "-quiet", "-known", o.known, v.Replay)
 	cmd.Env = append(os.Environ(), "GOMAXPROCS=2")
 	var buf bytes.Buffer
@@ -379,7 +392,9 @@ func (o *orch) verifyReplay(v VRec, variant string) bool {
 	if v.Class.Oracle == "process-survives" && !strings.Contains(buf.String(), "NOT REPRODUCED") && cmd.ProcessState != nil && !cmd.ProcessState.Success() {
 		return true // the replay from the seed brought the fresh process down again
 	}
-	o.addTrouble("replay of %s in a fresh process did not reproduce class+digest:\n%s", v.Replay, buf.String())
+	if complain {
+		o.addTrouble("replay of %s in a fresh process did not reproduce class+digest:\n%s", v.Replay, buf.String())
+	}
 	return false
 }
 
